@@ -578,6 +578,11 @@ func (c *Ctx) selectField(env *SpecEnv, base Value, name string, e *SExpr) Value
 			if b.Heap {
 				return b.Ref
 			}
+		case "off":
+			if b.Heap {
+				return b.Off
+			}
+			return c.idx(int64(b.COff))
 		}
 	}
 	specError("cannot select .%s from %s in %s", name, showValue(base), e)
@@ -875,6 +880,23 @@ func (c *Ctx) specSigned(env *SpecEnv, e *SExpr) bool {
 	case "int", "char":
 		return true
 	case "index":
+		if e.Args[0].Kind == "ident" {
+			// a let-bound (or ghost) slice: the element type decides
+			var v Value
+			if x, ok := env.vars[e.Args[0].Name]; ok {
+				v = x
+			} else if x, ok := env.st.Ghost[e.Args[0].Name]; ok {
+				v = x
+			}
+			switch x := v.(type) {
+			case SliceV:
+				if x.Elem != nil {
+					return !isUnsigned(x.Elem)
+				}
+			case StrV:
+				return false
+			}
+		}
 		return c.specSigned(env, e.Args[0])
 	}
 	return true
@@ -1209,6 +1231,79 @@ func (c *Ctx) specCall(env *SpecEnv, e *SExpr) Value {
 				specError("strOfRunes(s, main rune, comb []rune)")
 			}
 			return c.strOfRunes(env, sv, mt, cv)
+		case "keysNonEmpty", "valsNonNil":
+			// map-level facts usable by loops that range over a symbolic map
+			evalArgs()
+			m, ok := args[0].(MapV)
+			if !ok {
+				specError("%s needs a map", e.Args[0].Name)
+			}
+			mo := c.mapObj(env.st, m)
+			if mo.Abstract && len(mo.Entries) == 0 {
+				if e.Args[0].Name == "keysNonEmpty" {
+					return App("mapKeysNonEmpty."+mo.Tag, BoolSort)
+				}
+				return App("mapValsNonNil."+mo.Tag, BoolSort)
+			}
+			if mo.Abstract {
+				specError("%s on a partially concrete map", e.Args[0].Name)
+			}
+			var cs []*Term
+			for _, en := range mo.Entries {
+				if en.V == nil {
+					continue
+				}
+				if e.Args[0].Name == "keysNonEmpty" {
+					ks, isStr := en.K.(StrV)
+					if !isStr {
+						specError("keysNonEmpty needs string keys")
+					}
+					cs = append(cs, Cmp(">", c.strLen(env.st, ks), c.idx(0), true))
+				} else {
+					cs = append(cs, Not(c.isNil(env, en.V)))
+				}
+			}
+			return And(cs...)
+		case "freshInIteration":
+			// freshInIteration(x): the storage behind slice / pointer x was allocated during the current iteration of the
+			// innermost cut loop (or, outside loops, during this call)
+			evalArgs()
+			var am *Term = c.alloc0
+			om := c.entryObjs
+			for i := len(env.st.Loops) - 1; i >= 0; i-- {
+				if al := env.st.Loops[i]; al.Frame == len(env.st.Frames) && al.AllocMark != nil {
+					am, om = al.AllocMark, al.ObjMark
+					break
+				}
+			}
+			switch x := args[0].(type) {
+			case SliceV:
+				if x.Heap && x.Origin != nil {
+					// a copy of an engine object made for the symbolic heap: the object's own allocation time counts
+					_, isInput := c.initVals[x.Origin]
+					return BoolT(x.Origin.ID > om && !isInput)
+				}
+				if x.Heap {
+					return Cmp(">=", x.Ref, am, true)
+				}
+				if x.Obj == nil {
+					return False()
+				}
+				_, isInput := c.initVals[x.Obj]
+				return BoolT(x.Obj.ID > om && !isInput)
+			case PtrV:
+				if x.Obj != nil {
+					_, isInput := c.initVals[x.Obj]
+					return BoolT(x.Obj.ID > om && !isInput)
+				}
+				if x.Heap {
+					return Cmp(">=", x.Ref, am, true)
+				}
+			}
+			specError("freshInIteration needs a slice or pointer with known storage")
+		case "allocmark":
+			// the allocation mark: every reference allocated from now on is >= this value
+			return env.st.Alloc
 		case "dyn":
 			// dyn(e): the dynamic value boxed in interface value e (its dynamic type must be statically known)
 			evalArgs()
